@@ -105,7 +105,9 @@ def valid_type(dtype):
     if dtype in _dtype_map:
         dtype = _dtype_map[dtype]
 
-    if hasattr(DType, dtype):
+    # Only the members of DType are odML data types, not every attribute
+    # the string enumeration has (e.g. 'title', 'count' or 'name').
+    if dtype in DType.__members__:
         return True
 
     # Check odML tuple dtype.
